@@ -357,6 +357,9 @@ pub fn tlv_history(s: &[u8], salt: u64) -> Vec<Vec<u8>> {
 // `one_in`, on the whole history around x at one and the same address
 
 pub fn run_v1(x: &[u8], idx: u64, one_in: u64, mut f: impl FnMut(&[u8])) {
+    if let Some((others, _)) = crate::collide::v1_partners(x) {
+        return run_collision(x, &others, idx, f);
+    }
     if !crate::engine::small() && crate::engine::with_history(idx, one_in) {
         let h = v1_history(x, idx);
         crate::engine::placed_seq(&h, idx, |y| f(y));
@@ -365,7 +368,24 @@ pub fn run_v1(x: &[u8], idx: u64, one_in: u64, mut f: impl FnMut(&[u8])) {
     }
 }
 
+/// `x` right after each input that shares a fingerprint with it: in one refilled buffer, and in
+/// two unrelated ones.
+fn run_collision(x: &[u8], others: &[&[u8]], idx: u64, mut f: impl FnMut(&[u8])) {
+    for o in others {
+        if idx % 4 < 2 {
+            crate::engine::placed_seq(&[o.to_vec(), x.to_vec()], idx, |y| f(y));
+        } else {
+            let copy = o.to_vec();
+            f(&copy);
+            crate::engine::placed(x, idx, |y| f(y));
+        }
+    }
+}
+
 pub fn run_v2(x: &[u8], idx: u64, one_in: u64, mut f: impl FnMut(&[u8])) {
+    if let Some((others, _)) = crate::collide::v2_partners(x) {
+        return run_collision(x, &others, idx, f);
+    }
     if !crate::engine::small() && x.len() <= 4096 && crate::engine::with_history(idx, one_in) {
         let h = v2_history(x, idx);
         crate::engine::placed_seq(&h, idx / 3, |y| f(y));
